@@ -24,7 +24,13 @@ def _units():
     spec = importlib.util.spec_from_file_location("verus_units", p)
     m = importlib.util.module_from_spec(spec)
     spec.loader.exec_module(m)
-    return m.UNITS
+    units = list(m.UNITS)
+    import leafarms
+    for n in leafarms.arm_names():
+        units.append({"id": f"C02.e2.leaf.{n}", "props": ["C02"], "kind": "leaf_arm", "file": "src/run_prim.rs", "fn": "run_prim_func",
+                      "arm": r"Primitive::" + n, "prim": n, "target": "",
+                      "desc": f"leaf {n}: the run-time arm moves exactly ({n}.args(), {n}.outputs()) values (numbers read from the real definitions table); nothing beneath is touched, also on failure"})
+    return units
 
 
 def registry():
@@ -40,7 +46,7 @@ def _anchor(u):
     if u["kind"] in ("lemma", "canary"):
         return "contracts/verus (no repo code)"
     a = f"{u['file']}::{u.get('impl_name', '')}::{u['fn']}"
-    if u["kind"] == "arm":
+    if u["kind"] in ("arm", "leaf_arm"):
         a += f" arm `{u['arm']}`"
     if u.get("sub"):
         a += f" [{u['sub']}]"
@@ -132,6 +138,30 @@ def _emit_unit(gen, u):
                 info = extract.find_fn(src, u["inner_fn"], info["body_start"], info["body_end"])
             sig, body = extract.fn_parts(src, info)
             rep["source"] = f"{u['file']}:{extract.line_of(src, info['fn_kw'])}-{extract.line_of(src, info['body_end'])}"
+            if kind == "leaf_arm":
+                import leafarms
+                abody, is_block, span = extract.find_arm(src, u["arm"], info["body_start"], info["body_end"])
+                rep["source"] = f"{u['file']}:{extract.line_of(src, span[0])}-{extract.line_of(src, span[1])} (arm of run_prim_func)"
+                rep["verbatim_sha256"] = __import__("hashlib").sha256(abody.encode()).hexdigest()
+                try:
+                    norm, rlog = leafarms.normalise(abody, is_block)
+                except leafarms.NotLeafShaped as ex:
+                    raise extract.AnchorLost(f"arm is no longer leaf-shaped: {ex}")
+                rep["rewrites"] = [{"rewrite": "R8", "what": x} for x in rlog]
+                tab = leafarms.primtable()
+                if u["prim"] not in tab or tab[u["prim"]][0] < 0 or tab[u["prim"]][1] < 0:
+                    raise extract.AnchorLost(f"primitive {u['prim']} has no fixed args/outputs in the definitions table")
+                A, O, _ = tab[u["prim"]]
+                rep["declared"] = {"args": A, "outputs": O}
+                text = (f"    fn leaf_{u['prim']}(env: &mut Uiua) -> (r: UiuaResult)\n        ensures\n"
+                        f"            leaf_effect(old(env).rt.stack@, final(env).rt.stack@, r.is_ok(), {A}, {O}),\n"
+                        f"            final(env).rt.under_stack@ == old(env).rt.under_stack@,\n    {{\n{norm}        Ok(())\n    }}\n")
+                target = ""
+                gen.blocks.setdefault(target, []).append((uid, text))
+                if target not in gen.order:
+                    gen.order.append(target)
+                gen.report.append(rep)
+                return
             if kind == "fn":
                 raw = body
                 head = u.get("sig") or sig
